@@ -6,9 +6,10 @@
     - the AAD of a module determines the file (for fixed lengths of the AAD
       prefix and the file identifier), the module type and its ordinals, as
       long as the ordinals fit 16 bits ([C18_aad_injective]); the Go code does
-      NOT enforce that range for pages: int16 conversion wraps and modules
-      65536 pages apart share an AAD ([C18_page_ordinal_wraps],
-      [C18_ordinal_range_not_enforced]);
+      conversion to int16 wraps ([C18_page_ordinal_wraps]) and the writer
+      therefore refuses chunks of more than 32768 pages
+      ([C18_writer_rejects_wrap], [C18_written_files_in_range]; the behaviour
+      before that check is refuted by [C18_pinned_ordinal_wrap_refuted]);
     - for EVERY layout and EVERY reader history (sequential reads, seeks through
       the offset index or without it, explicit and lazy dictionary loads, page
       index / bloom filter / column metadata / footer readers) the type and AAD
@@ -63,11 +64,30 @@ Theorem C18_page_ordinal_wraps : forall pfx fu m rg col pg,
 Proof. exact make_aad_page_wraps. Qed.
 Print Assumptions C18_page_ordinal_wraps.
 
-(** The writer model -- like the Go writer -- accepts a chunk of 65537 pages
-    and seals page 0 and page 65536 under the same AAD: the two modules can be
-    exchanged without the reader noticing.  (Refutes AAD uniqueness for
-    layouts outside [wf_layout]; reproduced on the Go code by the harness.) *)
-Theorem C18_ordinal_range_not_enforced :
+(** The writer refuses what does not fit (writer.go:2535-2540, 1503): a chunk
+    of more than 32768 data pages makes the whole write fail, and every layout
+    it accepts has all its ordinals in range, hence pairwise distinct AADs. *)
+Theorem C18_writer_rejects_wrap : forall pfx fu ef lay rg col c,
+  layout_chunk lay rg col = Some c -> (32768 < N.of_nat (c_pages c))%N ->
+  write_file_chk pfx fu ef lay = None.
+Proof. exact write_file_chk_rejects. Qed.
+Print Assumptions C18_writer_rejects_wrap.
+
+Theorem C18_written_files_in_range : forall pfx fu ef lay wf,
+  write_file_chk pfx fu ef lay = Some wf ->
+  wf = write_file pfx fu ef lay /\ wf_layout lay /\
+  forall p, valid_pos ef lay p = true -> pos_in_range p.
+Proof.
+  intros pfx fu ef lay wf H. destruct (write_file_chk_some pfx fu ef lay wf H) as [E W].
+  split; [exact E|]. split; [exact W|]. intros p. exact (valid_pos_in_range ef lay p W).
+Qed.
+Print Assumptions C18_written_files_in_range.
+
+(** Pinned (pre-fix) behaviour: without that check -- [write_file] is the
+    writer minus the check -- a chunk of 65537 pages is written and page 0 and
+    page 65536 are sealed under the same AAD: the two can be exchanged without
+    the reader noticing.  Reproduced on the Go code by the harness (mutant). *)
+Theorem C18_pinned_ordinal_wrap_refuted :
   exists lay p p', p <> p' /\
     forall pfx fu ef, exists m m',
       wfile_at (write_file pfx fu ef lay) p = Some m /\
@@ -80,14 +100,16 @@ Proof.
     assert (V : forall k, (k < N.to_nat 65537)%nat ->
               valid_pos ef [[mkChunk false (N.to_nat 65537) false]] (PDataBody 0 0 k) = true).
     { intros k Hk. cbn [valid_pos layout_chunk nth_error c_pages]. now apply Nat.ltb_lt. }
-    eexists. eexists. split; [|split].
-    + apply write_file_spec. apply V. lia.
-    + apply write_file_spec. apply V. lia.
-    + f_equal. unfold aad_of_pos. cbn [pos_ords pos_type].
+    exists (mkMod MDataBody (aad_of_pos pfx fu (PDataBody 0 0 0))),
+           (mkMod MDataBody (aad_of_pos pfx fu (PDataBody 0 0 (N.to_nat 65536)))).
+    split; [|split].
+    + apply (write_file_spec pfx fu ef _ (PDataBody 0 0 0)). apply V. lia.
+    + apply (write_file_spec pfx fu ef _ (PDataBody 0 0 (N.to_nat 65536))). apply V. lia.
+    + apply (f_equal (mkMod MDataBody)). unfold aad_of_pos. cbn [pos_ords pos_type].
       rewrite N_nat_Z. change (Z.of_N 65536) with (0 + 65536)%Z.
       symmetry. apply make_aad_page_wraps.
 Qed.
-Print Assumptions C18_ordinal_range_not_enforced.
+Print Assumptions C18_pinned_ordinal_wrap_refuted.
 
 (** * Writer and reader compute the same ordinals *)
 (** The writer's state machine seals every module of the file under the
@@ -140,7 +162,8 @@ Section C18_Aead.
     exists s, In s sealed /\ s_key key s = k /\ s_nonce key s = n /\ s_aad key s = a /\
               s_plain key s = p /\ c = s_cipher key seal s.
 
-  Let aad_unique := entries_aad_unique key es log_ok.
+  Let ok : aead_ok key seal open_ sealed := conj seal_length (conj open_seal (conj auth shapes)).
+  Let uniq : aad_unique key sealed := entries_aad_unique key es log_ok.
 
   (** The reader recovers the plaintext of every module: by
       [C18_ordinals_agree] the AAD it computes is the one of the entry. *)
@@ -149,8 +172,7 @@ Section C18_Aead.
       (envelope_of key seal (sealed_of_entry key e)) = Some (e_plain key e).
   Proof.
     intros e He.
-    exact (decrypt_roundtrip key seal open_ seal_length sealed open_seal shapes
-             (sealed_of_entry key e) (in_map _ _ _ He)).
+    exact (decrypt_roundtrip key seal open_ sealed (sealed_of_entry key e) ok (in_map _ _ _ He)).
   Qed.
 
   (** If ANY bytes decrypt where module [e] is expected, with ANY key, then the
@@ -163,8 +185,7 @@ Section C18_Aead.
     exists rest, env = envelope_of key seal (sealed_of_entry key e) ++ rest.
   Proof.
     intros e k env p He.
-    exact (decrypt_only_original key seal open_ sealed auth aad_unique
-             (sealed_of_entry key e) k env p (in_map _ _ _ He)).
+    exact (decrypt_only_original key seal open_ sealed (sealed_of_entry key e) k env p ok uniq (in_map _ _ _ He)).
   Qed.
 
   (** Replaced by another module: another page, column or row group of the
@@ -176,8 +197,8 @@ Section C18_Aead.
       (envelope_of key seal (sealed_of_entry key e2)) = None.
   Proof.
     intros e e2 k He He2.
-    exact (transplant_fails key seal open_ sealed auth aad_unique shapes
-             (sealed_of_entry key e) (sealed_of_entry key e2) k (in_map _ _ _ He) (in_map _ _ _ He2)).
+    exact (transplant_fails key seal open_ sealed (sealed_of_entry key e) (sealed_of_entry key e2) k
+             ok uniq (in_map _ _ _ He) (in_map _ _ _ He2)).
   Qed.
 
   (** Any change of the envelope bytes (length field, nonce, ciphertext, tag). *)
@@ -187,7 +208,7 @@ Section C18_Aead.
     decrypt_module key open_ k (aad_of_pos (e_pfx key e) (e_fu key e) (e_pos key e)) env = None.
   Proof.
     intros e k env He.
-    exact (modified_fails key seal open_ sealed auth aad_unique (sealed_of_entry key e) k env (in_map _ _ _ He)).
+    exact (modified_fails key seal open_ sealed (sealed_of_entry key e) k env ok uniq (in_map _ _ _ He)).
   Qed.
 
   Theorem C18_truncated_rejected : forall e k m, In e es ->
@@ -197,7 +218,7 @@ Section C18_Aead.
       (firstn m (envelope_of key seal (sealed_of_entry key e))) = None.
   Proof.
     intros e k m He.
-    exact (truncated_fails key seal open_ sealed auth aad_unique (sealed_of_entry key e) k m (in_map _ _ _ He)).
+    exact (truncated_fails key seal open_ sealed (sealed_of_entry key e) k m ok uniq (in_map _ _ _ He)).
   Qed.
 
   Theorem C18_wrong_key_rejected : forall e k env, In e es -> wf_bytes env ->
@@ -205,7 +226,7 @@ Section C18_Aead.
     decrypt_module key open_ k (aad_of_pos (e_pfx key e) (e_fu key e) (e_pos key e)) env = None.
   Proof.
     intros e k env He.
-    exact (wrong_key_fails key seal open_ sealed auth aad_unique (sealed_of_entry key e) k env (in_map _ _ _ He)).
+    exact (wrong_key_fails key seal open_ sealed (sealed_of_entry key e) k env ok uniq (in_map _ _ _ He)).
   Qed.
 End C18_Aead.
 
@@ -268,7 +289,7 @@ Example C18_ex_aad_arity :
 Proof. split; vm_compute; reflexivity. Qed.
 
 (* a history with a lazy dictionary load after a seek, a seek back without
-   index and an explicit dictionary load: 10 module reads, all agree *)
+   index and an explicit dictionary load: 23 module reads in all, every one agrees *)
 Definition ex_history : list fop :=
   [FFooter; FColIndex 1 1; FOffIndex 0 1; FBloom 0 0; FBloom 1 1;
    FPages 0 0 [RSeekIndex 2 false; RNext true; RNext true; RSeekNoIndex; RNext true; RLoadDict;
@@ -277,7 +298,7 @@ Definition ex_history : list fop :=
 
 Example C18_ex_agree :
   forallb (fop_valid true ex_lay) ex_history = true /\
-  List.length (frun [1]%N [7]%N (write_file [1]%N [7]%N true ex_lay) ex_history) = 25%nat /\
+  List.length (frun [1]%N [7]%N (write_file [1]%N [7]%N true ex_lay) ex_history) = 23%nat /\
   forallb pair_agrees (frun [1]%N [7]%N (write_file [1]%N [7]%N true ex_lay) ex_history) = true.
 Proof. vm_compute. repeat split; reflexivity. Qed.
 
@@ -313,20 +334,10 @@ Proof.
     destruct H1.
 Qed.
 
-Example C18_ex_hypotheses :
-  (forall k n a p, List.length (toy_seal k n a p) = (List.length p + tag_size)%nat) /\
-  (forall s, In s ex_sealed -> sealed_shape bytes toy_seal s) /\
-  (forall s, In s ex_sealed ->
-     toy_open ex_sealed (s_key bytes s) (s_nonce bytes s) (s_aad bytes s) (s_cipher bytes toy_seal s)
-     = Some (s_plain bytes s)) /\
-  (forall k n a c p, toy_open ex_sealed k n a c = Some p ->
-     exists s, In s ex_sealed /\ s_key bytes s = k /\ s_nonce bytes s = n /\ s_aad bytes s = a /\
-               s_plain bytes s = p /\ c = s_cipher bytes toy_seal s).
+Example C18_ex_hypotheses : aead_ok bytes toy_seal (toy_open ex_sealed) ex_sealed.
 Proof.
-  split; [exact toy_seal_length|]. split; [|split].
-  - intros s Hs. repeat (destruct Hs as [<-|Hs]; [split; vm_compute; reflexivity|]). destruct Hs.
-  - exact (toy_open_seal ex_sealed).
-  - exact (toy_auth ex_sealed).
+  apply toy_aead_ok.
+  intros s Hs. repeat (destruct Hs as [<-|Hs]; [split; vm_compute; reflexivity|]). destruct Hs.
 Qed.
 
 (* page 0 reads back; page 1, the same page of the other column and the same
